@@ -26,7 +26,7 @@ class Failure:
 
 
 def run_verus(path, rlimit=None, seed=None, extra=None, timeout=900):
-    cmd = [VERUS, path, '--output-json', '--time', '--error-format=json', '--multiple-errors', '4',
+    cmd = [VERUS, path, '--output-json', '--time', '--error-format=json', '--multiple-errors', '25',
            '--triggers-mode', 'silent', '--no-report-long-running']
     if rlimit:
         cmd += ['--rlimit', str(rlimit)]
